@@ -23,12 +23,16 @@ def run(ctx):
     quick = ctx.quick()
     # 1. design: a failure observed only by a stale attempt is never reported; an in-order failure is
     #    reported with the exact prefix (FinalOk of Grevm.tla on the error templates)
-    se.mc(ctx, ["stale_fatal2"], "mc_stale_fatal2", tlc_workers=12)
+    se.mc(ctx, ["stale_fatal2_nocheck"], "mc_stale_fatal2_nocheck", tlc_workers=12)
+    if not quick:
+        se.mc(ctx, ["stale_fatal2"], "mc_stale_fatal2", tlc_workers=12, timeout=2400)
     if not quick:
         se.mc(ctx, ["fatal_in_order2"], "mc_fatal_in_order2", tlc_workers=12, timeout=2400)
         se.mc(ctx, ["invalid_then_valid3"], "sim_invalid3", simulate=5000, depth=800, timeout=1800)
-    # 2. the guard of finding F2 (fixed by ff2cdcb): its loss is a counterexample, replayed on the code
-    for g, b in (("GHeadAtStart", "stale_fatal2"), ("GHeadOnly", "stale_fatal2")):
+    #    a transaction whose nonce is wrong in block order is skipped in order, whatever its body would do
+    se.mc(ctx, ["badnonce_fatal2"], "mc_badnonce_fatal2", tlc_workers=8, timeout=1500)
+    # 2. the guards of findings F2 (fixed by ff2cdcb) and F4 (fixed by 32e7315): their loss is a counterexample, replayed on the code
+    for g, b in (("GHeadAtStart", "stale_fatal2_nocheck"), ("GHeadOnly", "stale_fatal2_nocheck"), ("GNonceReplay", "badnonce_fatal2")):
         w = se.witness(ctx, g, b, regenerate=not quick)
         ctx.guards[g] = (f"load-bearing on {b}: {w['invariant']} at depth {w['depth']}" if w["found"]
                          else f"no counterexample on {b}")
@@ -37,9 +41,17 @@ def run(ctx):
         res = se.replay_witness(ctx, w, "C04", extra_runs=6 if quick else 40)
         if res:
             ctx.notes.setdefault("witness_replays", {})[g] = [s["guided"][:3] for s in res[0]["scenarios"]]
+    for b in ("stale_fatal2_nocheck", "stale_fatal2", "invalid_stale2"):
+        g = se.goal(ctx, "CommitDuringFailedAttempt", b, regenerate=not quick)
+        ctx.guards[f"goal CommitDuringFailedAttempt on {b}"] = f"reached at depth {g['depth']}" if g["found"] else "not reachable"
+        if not g["found"]:
+            raise ToolError(f"coverage goal CommitDuringFailedAttempt is not reachable on {b}")
+        se.replay_witness(ctx, g, "C04", also=("C01",), extra_runs=4 if quick else 30)
     # 3. fault enumeration on the real code: every key the block touches x {persistent, fail-once}
     import json
-    scn = fault_scenarios(["chain2", "stale_fatal2"] if quick else ["chain2", "rmw3", "dd3", "stale_fatal2", "fatal_in_order2", "grow_shrink3"],
+    # (invalid_mid_fault4: an invalid transaction at the commit head forces the sequential replay of the suffix after a
+    #  committed prefix; a fault further down must still be reported with its block index and the exact prefix)
+    scn = fault_scenarios(["chain2", "stale_fatal2", "invalid_mid_fault4"] if quick else ["chain2", "rmw3", "dd3", "stale_fatal2", "fatal_in_order2", "grow_shrink3", "invalid_mid_fault4", "invalid_then_valid3"],
                           ["persistent", "once"])
     out = ctx.path("faults.ndjson")
     args = {"groups": ["SCHED"], "workers": 2, "max_runs": 25 if quick else 400, "seed": ctx.seed, "policy": "pct",
@@ -49,7 +61,7 @@ def run(ctx):
     ctx.notes["fault_points"] = len(scn)
     ctx.samples.append({"fault_scenarios": [s["name"] for s in scn][:12]})
     # fault-free and in-order-fatal blocks, all schedules sampled: Ok exactly when in-order is Ok
-    r2, out2, args2 = se.controlled(ctx, ["stale_fatal2", "fatal_in_order2", "chain2", "rmw3"], 150 if quick else 5000, tag="plain")
+    r2, out2, args2 = se.controlled(ctx, ["stale_fatal2_nocheck", "stale_fatal2", "fatal_in_order2", "chain2", "rmw3", "badnonce_fatal2", "badnonce_reads3"], 150 if quick else 5000, tag="plain")
     se.report(ctx, r2, args2, "C04")
     se.validate(ctx, r2, out2, "trace_plain")
     ctx.rule = ("one case = (block, database key, fault mode, thread schedule); keys = every storage slot, sender, the "
